@@ -502,6 +502,12 @@ def install(eng):
                 x = M.unwrap(x)
                 if isinstance(x, I.GeneratorValue):
                     x = list(M.iterate(eng, x))
+                if type(x).__name__ == "SymList":
+                    if not x.scalar:
+                        raise Unsupported("reduction over a symbolic list of non-scalars")
+                    it_ = x.item
+                    probe = M.unwrap(it_(T.fresh("probe", "int")))
+                    x = I.Arr((x.length,), lambda i: M.unwrap(it_(i)), M.scalar_dtype(probe))
                 if T.is_scalar(x):
                     return x
                 return M.reduce_axis(eng, kind, x, axis)
